@@ -445,6 +445,81 @@ VP_TARGET("dprint", t_dprint,
           "debug_printdec_*/printhex_*/printbin_* with a capturing debug_putchar: boundary-biased value of the "
           "exact argument type; non-trivial = multi-digit");
 
+// ------------------------------------------------ buffer renderers of dprint
+// debug_writehex / debug_writebin (and their _reversed twins) render a byte buffer as two hex digits /
+// eight binary digits per byte; debug_printbin_uint4 renders a nibble. Oracle: the text has exactly
+// 2n / 8n / 4 digits and each group parses back (base 16 / 2, either case) to the byte it stands for, in
+// buffer order (reverse order for the twins). The buffer is an exactly-sized heap block.
+static void t_dprint_buf(Src &s, Case &c)
+{
+    g_cap.clear();
+    int fn = (int)s.below(5);
+    if (fn == 4)
+    {
+        uint8_t b = (uint8_t)s.below(16);
+        c.log("debug_printbin_uint4(%u)", b);
+        c.label("printbin_uint4");
+        c.nontrivial = b >= 2;
+        debug_printbin_uint4(b);
+        VP_CHECK(g_cap.size() == 4, "dprint_buf_length", "printbin_uint4(%u) emitted '%s'", b, g_cap.c_str());
+        unsigned v = 0;
+        for (char ch : g_cap)
+        {
+            VP_CHECK(ch == '0' || ch == '1', "dprint_buf_alphabet", "printbin_uint4(%u) emitted '%s'", b, g_cap.c_str());
+            v = v * 2 + (unsigned)(ch - '0');
+        }
+        VP_CHECK(v == b, "dprint_buf_value", "printbin_uint4(%u) emitted '%s'", b, g_cap.c_str());
+        return;
+    }
+    size_t n = (size_t)(s.coin() ? s.range(0, 8) : s.range(0, 300));
+    Exact buf(n);
+    uint8_t b0 = s.u8(), step = (uint8_t)s.pick({0, 1, 17, 85, 255});
+    for (size_t i = 0; i < n; i++)
+        buf.p[i] = n <= 16 ? s.u8() : (uint8_t)(b0 + i * step);
+    static const char *names[] = {"debug_writehex", "debug_writehex_reversed", "debug_writebin", "debug_writebin_reversed"};
+    c.log("%s(n=%zu first=%02x)", names[fn], n, n ? buf.p[0] : 0);
+    c.label(names[fn]);
+    if (n == 0)
+        c.label("empty");
+    if (n > 255)
+        c.label("n>255");
+    c.nontrivial = n >= 2;
+    bool hex = fn < 2, rev = fn & 1;
+    switch (fn)
+    {
+    case 0:
+        debug_writehex(buf.p, (uint16_t)n);
+        break;
+    case 1:
+        debug_writehex_reversed(buf.p, (uint16_t)n);
+        break;
+    case 2:
+        debug_writebin(buf.p, (uint16_t)n);
+        break;
+    default:
+        debug_writebin_reversed(buf.p, (uint16_t)n);
+    }
+    size_t per = hex ? 2 : 8;
+    VP_CHECK(g_cap.size() == per * n, "dprint_buf_length", "%s of %zu bytes emitted %zu characters, expected %zu", names[fn], n, g_cap.size(), per * n);
+    for (size_t i = 0; i < n; i++)
+    {
+        unsigned v = 0;
+        for (size_t j = 0; j < per; j++)
+        {
+            char ch = g_cap[i * per + j];
+            int d = ch >= '0' && ch <= '9' ? ch - '0' : ch >= 'a' && ch <= 'f' ? ch - 'a' + 10 : ch >= 'A' && ch <= 'F' ? ch - 'A' + 10 : 99;
+            VP_CHECK(d < (hex ? 16 : 2), "dprint_buf_alphabet", "%s: character 0x%02x at position %zu", names[fn], (unsigned char)ch, i * per + j);
+            v = v * (hex ? 16u : 2u) + (unsigned)d;
+        }
+        uint8_t want = buf.p[rev ? n - 1 - i : i];
+        VP_CHECK(v == want, "dprint_buf_value", "%s: group %zu reads %02x, the byte there is %02x", names[fn], i, v, want);
+    }
+}
+VP_TARGET("dprint_buf", t_dprint_buf,
+          "debug_writehex / debug_writehex_reversed / debug_writebin / debug_writebin_reversed over an exactly-sized heap block of "
+          "0..300 bytes and debug_printbin_uint4 of every nibble: digit count, alphabet and parse-back of every group in buffer "
+          "(reverse) order; non-trivial = at least two bytes");
+
 // ---------------------------------------- exhaustive: 8/16-bit x all bases
 static unsigned __int128 small_enum_size(int) { return 256 + 65536; }
 static void t_small_enum(Src &s, Case &c)
